@@ -193,6 +193,9 @@ pub struct Step {
     pub goal_calls: (usize, usize),
     pub elapsed: Duration,
     pub ticks: u64,
+    /// the validity-query cap fired during this step (the budget was zeroed mid-call, which also
+    /// resets the tick counter: `ticks` is meaningless for this step)
+    pub cap_fired: bool,
 }
 
 #[derive(Clone, Debug)]
@@ -411,6 +414,7 @@ pub fn run_case<K: Kind>(case: &PlanCase) -> Result<Trace, String> {
     let mut steps = Vec::new();
     let mut dead = false;
     for op in &case.ops {
+        let cap_before = b.rec.borrow().cap_hit;
         let (v0, s0, g0, u0, gc0) = {
             let r = b.rec.borrow();
             (
@@ -514,6 +518,7 @@ pub fn run_case<K: Kind>(case: &PlanCase) -> Result<Trace, String> {
             goal_calls: (gc0, r.n_goal_calls),
             elapsed,
             ticks,
+            cap_fired: r.cap_hit && !cap_before,
         });
     }
     let rec = b.rec.borrow().clone();
